@@ -294,6 +294,9 @@ func runC09(c *Check, a *Analysis) {
 	ruleUpgradeOwner(c, a, "R-UPGRADE-OWNER")
 	ruleStreamCtxStable(c, a, "R-STREAM-CTX-STABLE")
 	ruleStreamSeqAssigned(c, a, "R-STREAM-SEQ")
+	ruleStreamQueue(c, a, "R-STREAM-QUEUE")
+	c.Rule("R-LOCK", "stream.events only under stream.mut", 3)
+	ruleLock(c, a, "R-LOCK", "stream", "events")
 	rulePushCtx(c, a, "R-PUSH-CTX")
 	ruleReaderTotal(c, a, "R-READER-TOTAL")
 	ruleCopyDestFresh(c, a, "R-COPY-DEST-FRESH")
@@ -364,6 +367,19 @@ func ruleStreamReadCopy(c *Check, a *Analysis, rule string) {
 				det = "the user's message is decoded directly from the pooled event buffer although noCopy was not requested"
 			}
 		}
+		if !aliased {
+			// the private buffer really received the event's bytes
+			filled := false
+			for _, cp := range callsIn(fn, "builtin copy") {
+				if p.canon(cp.Common().Args[0]) == p.canon(arg) && isLoadOf(p.canon(cp.Common().Args[1]), "event", "Value") && p.dominatesInstr(cp.(ssa.Instruction), in) {
+					filled = true
+				}
+			}
+			if !filled {
+				ok = false
+				det = "the private buffer handed to the decoder was never filled from the event's bytes: the message content is lost"
+			}
+		}
 		c.Ob(rule, sc.key(fn, "unmarshal from copy unless noCopy"), p.InstrPos(in), ok, det)
 	})
 	// PutBuffer(e.Value) then no load of e.Value
@@ -394,6 +410,9 @@ func runC10(c *Check, a *Analysis) {
 	sc := siteCounter{}
 	ruleLockBalance(c, a, "R-LOCK-BALANCE", "stream.mut", "Conn.mutex", "Server.mutex")
 	ruleStreamCond(c, a, "R-STREAM-COND")
+	ruleStreamQueue(c, a, "R-STREAM-QUEUE")
+	c.Rule("R-LOCK", "stream.events only under stream.mut", 3)
+	ruleLock(c, a, "R-LOCK", "stream", "events")
 	ruleWGDiscipline(c, a, "R-WG-DISCIPLINE")
 
 	ruleStop(c, a, "R-STOP")
@@ -695,6 +714,8 @@ func ruleStop(c *Check, a *Analysis, rule string) {
 			}
 			if fr, _, ok := fieldOfAddr(cc.Call.Args[0]); ok && fr.Struct == "stream" && fr.Field == "closed" {
 				nSet++
+				k, isK := constInt(cc.Call.Args[1])
+				c.Ob(rule, sc.key(stop, "closed set to non-zero"), p.InstrPos(in), isK && k != 0, ifs(!(isK && k != 0), "stop stores "+describe(cc.Call.Args[1])+" into the closed flag: the stream is never seen as closed"))
 				held := ls.Held(in, "stream.mut")
 				c.Ob(rule, sc.key(stop, "closed=1 under stream.mut"), p.InstrPos(in), held, ifs(!held, "the closed flag is set outside stream.mut: a reader can test the flag, miss the broadcast and block forever"))
 				_, tr, okp := p.mustPass(stop, nil, func(x ssa.Instruction) bool { return x == in })
@@ -743,6 +764,45 @@ func ruleStop(c *Check, a *Analysis, rule string) {
 			c.Ob(rule, sc.key(rm, "closed tested before first Wait"), p.InstrPos(w), !found, ifs(found, "ReadMessage can wait without ever testing the closed flag"))
 		}
 	}
+	// every flag test distinguishes closed from open, and the closed edge leaves without the queue
+	for _, name := range []string{"(*stream).ReadMessage", "(*stream).WriteMessage"} {
+		fn := p.Fn(name)
+		if fn == nil {
+			continue
+		}
+		eachInstr(fn, func(in ssa.Instruction) {
+			if !isClosedTest(in) {
+				return
+			}
+			rec := false
+			if refs := in.(ssa.Value).Referrers(); refs != nil {
+				for _, r := range *refs {
+					if b, ok := r.(*ssa.BinOp); ok {
+						if m, _ := matchAtomicFlag("stream", "closed")(b); m {
+							rec = true
+						}
+					}
+				}
+			}
+			c.Ob(rule, sc.key(fn, "flag test is closed != 0"), p.InstrPos(in), rec, ifs(!rec, "the closed flag is compared in a way that does not separate 0 (open) from 1 (closed): a closed stream is not recognised"))
+		})
+		edges, _ := p.guardEdges(fn, matchAtomicFlag("stream", "closed"))
+		for e := range edges {
+			var hit ssa.Instruction
+			_, tr, found := p.reachFromBlock(fn, e.to, func(x ssa.Instruction) bool {
+				if v, ok := x.(ssa.Value); ok && (isLoadOf(v, "stream", "events") || isLoadOf(v, "stream", "write")) {
+					hit = x
+					return true
+				}
+				if isCallTo(x, "(*sync.Cond).Wait") {
+					hit = x
+					return true
+				}
+				return false
+			}, never, nil)
+			c.Ob(rule, sc.key(fn, "closed edge leaves"), p.InstrPos(e.to.Instrs[0]), !found, ifs(found, "on the edge on which the stream is known closed the function goes on to "+p.At(hit)+" ("+p.lineTrail(tr)+") instead of returning ErrStreamShutdown"))
+		}
+	}
 	if wm := p.Fn("(*stream).WriteMessage"); wm == nil {
 		c.Undecided(rule, "(*stream).WriteMessage not found")
 	} else {
@@ -775,4 +835,70 @@ func ruleStop(c *Check, a *Analysis, rule string) {
 		c.Ob(rule, sc.key(cl, "stop before close, on every path"), cl.Pos(), ok && okp, ifs(!(ok && okp), "stream.Close does not call stop() first on every path"))
 	}
 
+}
+
+// ruleStreamQueue (C09): the per-stream queue is a FIFO under stream.mut: trigger appends
+// and signals, ReadMessage takes events[0] and stores events[1:] in the same critical section.
+func ruleStreamQueue(c *Check, a *Analysis, rule string) {
+	p := c.P
+	ls := a.Locks()
+	c.Rule(rule, "stream.trigger appends the event to stream.events under stream.mut and then signals the condition variable on every path; ReadMessage delivers events[0] and stores events[1:] in the same critical section", 4)
+	if tr := p.Fn("(*stream).trigger"); tr == nil || len(tr.Params) < 2 {
+		c.Undecided(rule, "(*stream).trigger not found")
+	} else {
+		var app ssa.Instruction
+		for _, st := range p.fieldStoresIn(tr, "stream", "events") {
+			if cc, ok := p.canon(st.Val).(*ssa.Call); ok && calleeName(cc) == "builtin append" && isLoadOf(p.canon(cc.Call.Args[0]), "stream", "events") {
+				for _, e := range appendedElems(p, cc) {
+					if p.canon(e) == ssa.Value(tr.Params[1]) && ls.Held(st, "stream.mut") {
+						app = st
+					}
+				}
+			}
+		}
+		c.Ob(rule, "(*stream).trigger#events = append(events, e) under stream.mut", tr.Pos(), app != nil, ifs(app == nil, "trigger does not append its event to the stream's queue under stream.mut: the message is lost"))
+		if app != nil {
+			_, trl, okp := p.mustPass(tr, app, func(x ssa.Instruction) bool {
+				return isCallTo(x, "(*sync.Cond).Signal") || isCallTo(x, "(*sync.Cond).Broadcast")
+			})
+			c.Ob(rule, "(*stream).trigger#signal after append", p.InstrPos(app), okp, ifs(!okp, "after queueing the event no Signal/Broadcast follows ("+p.lineTrail(trl)+"): a reader blocked in ReadMessage is not woken"))
+		}
+	}
+	rm := p.Fn("(*stream).ReadMessage")
+	if rm == nil {
+		c.Undecided(rule, "(*stream).ReadMessage not found")
+		return
+	}
+	sc := siteCounter{}
+	n := 0
+	eachInstr(rm, func(in ssa.Instruction) {
+		// element taken: load of IndexAddr(events, k)
+		u, ok := in.(*ssa.UnOp)
+		if !ok || u.Op != token.MUL {
+			return
+		}
+		ia, ok := u.X.(*ssa.IndexAddr)
+		if !ok || !isLoadOf(p.canon(ia.X), "stream", "events") {
+			return
+		}
+		n++
+		k, isK := constInt(ia.Index)
+		c.Ob(rule, sc.key(rm, "delivers the oldest event"), p.InstrPos(in), isK && k == 0, ifs(!(isK && k == 0), "ReadMessage takes events["+describe(ia.Index)+"], not the oldest one: order is broken"))
+		// followed, in the same critical section, by events = events[1:]
+		popped := false
+		for _, st := range p.fieldStoresIn(rm, "stream", "events") {
+			sl, ok := p.canon(st.Val).(*ssa.Slice)
+			if !ok || !isLoadOf(p.canon(sl.X), "stream", "events") || sl.High != nil || sl.Low == nil {
+				continue
+			}
+			lo, isL := constInt(sl.Low)
+			if isL && lo == 1 && ls.SameSection(in, st, "stream.mut") && p.dominatesInstr(in, st) {
+				popped = true
+			}
+		}
+		c.Ob(rule, sc.key(rm, "pop in the same critical section"), p.InstrPos(in), popped, ifs(!popped, "the delivered event is not removed from the queue (events = events[1:]) in the critical section in which it was taken: it is delivered again, or two readers take the same one"))
+	})
+	if n == 0 {
+		c.Undecided(rule, "ReadMessage does not take an element of stream.events")
+	}
 }
